@@ -295,6 +295,16 @@ def F18_gmm_mean_shrink():
     return {"fails": not inside, "detail": f"20 points with x0==5.0: fitted mean x0={m[0]!r} (bbox [{lo[0]!r},{hi[0]!r}])"}
 
 
+# ---------------------------------------------------------------- C19 / F19
+def F19_student_nu_always_inf():
+    from tempest.student import fit_mvstud
+    x = np.random.default_rng(0).standard_t(3, size=(20000, 2))
+    with _quiet():
+        mu, S, nu = fit_mvstud(x)
+    ok = np.isfinite(nu) and 2.0 <= nu <= 4.5
+    return {"fails": not ok, "detail": f"20000 bivariate t3 draws (default_rng(0)): fitted nu={nu!r} (want in [2,4.5]), Sigma[0,0]={S[0,0]:.3f}"}
+
+
 ALL = {k: v for k, v in list(globals().items()) if k[:1] == "F" and callable(v)}
 
 if __name__ == "__main__":
